@@ -31,6 +31,7 @@ import (
 	"github.com/Trendyol/go-dcp/models"
 	"github.com/Trendyol/go-dcp/servicediscovery"
 	"github.com/asaskevich/EventBus"
+	"github.com/couchbase/gocbcore/v10/memd"
 	"github.com/prometheus/client_golang/prometheus"
 	"pgregory.net/rapid"
 
@@ -47,6 +48,10 @@ type c10Op struct {
 	// document and index entry are written on the node). The set of instances changes, the group size does not, and every
 	// member that joined before the one that left keeps its number.
 	Swap int `json:"swap,omitempty"`
+	// Stall (last op of a history, >= 2 live members): from now on the node refuses the heart-beat writes of the member at
+	// index Stall%live while its process goes on (reads work). The others drop it; it must not go on holding its number: its
+	// process fail-stops ("cant find self in cluster") - a member that kept k/N would share vBuckets with the renumbered rest.
+	Stall int `json:"stall,omitempty"`
 }
 
 type c10CB struct {
@@ -54,6 +59,7 @@ type c10CB struct {
 }
 
 type c10Member struct {
+	key     string // its instance document
 	id      int
 	ms      membership.Membership
 	bus     EventBus.Bus
@@ -149,6 +155,45 @@ func c10Child(raw json.RawMessage) any {
 		}
 	}
 	for step, op := range sc.Ops {
+		if op.Stall > 0 && len(live) >= 2 && step == len(sc.Ops)-1 {
+			v := live[op.Stall%len(live)]
+			if v.key == "" {
+				res.Timing = true
+				break
+			}
+			e.c.Lock()
+			e.c.Hook = func(en *simnodeEntry) simnodeAction {
+				if en.Key == v.key && isKVWrite(en.Cmd) {
+					return simnodeAction{Kind: simnodeStatus, Status: memd.StatusInternalError}
+				}
+				return simnodeAction{}
+			}
+			e.c.Unlock()
+			fmt.Printf("STALLED %d\n", v.id)
+			// the others drop it after heart-beat interval + tolerance; its own next monitor round does not find it either
+			rest := make([]*c10Member, 0, len(live))
+			for _, m := range live {
+				if m != v {
+					rest = append(rest, m)
+				}
+			}
+			live = rest
+			if !quiesce(step) {
+				break
+			}
+			time.Sleep(10 * c10Monitor)
+			var info *membership.Model
+			within(5*time.Second, func() { info = v.ms.GetInfo() })
+			if info != nil {
+				res.Violation = fmt.Sprintf("member %d stopped heart-beating (its writes are refused, its process lives) and was dropped by the others, who renumbered to %d members - it goes on as %d/%d: vBuckets have two owners", v.id, len(live), info.MemberNumber, info.TotalMembers)
+			}
+			live = append(live, v) // (closed with the rest below)
+			res.Rounds = append(res.Rounds, "stalled member survived")
+			for _, m := range live {
+				m.ms.Close()
+			}
+			return res
+		}
 		if op.Swap > 0 && len(live) >= 2 && step == len(sc.Ops)-1 {
 			i := 1 + op.Swap%(len(live)-1)
 			before := map[int]int{}
@@ -215,7 +260,22 @@ func c10Child(raw json.RawMessage) any {
 				m.mu.Unlock()
 			})
 			cfg := mkcfg()
+			known := map[string]bool{}
+			e.c.Lock()
+			for k := range e.c.Docs {
+				known[k] = true
+			}
+			e.c.Unlock()
 			m.ms = couchbase.NewCBMembership(cfg, couchbase.VerifNewClient(cfg, e.agent, e.agent, e.dcp), m.bus)
+			for dl := time.Now().Add(time.Second); m.key == "" && time.Now().Before(dl); time.Sleep(time.Millisecond) {
+				e.c.Lock()
+				for k := range e.c.Docs {
+					if !known[k] && strings.HasPrefix(k, reservedPrefix+"grp:instance:") && !strings.HasSuffix(k, ":all") {
+						m.key = k
+					}
+				}
+				e.c.Unlock()
+			}
 			live = append(live, m)
 			time.Sleep(2 * time.Millisecond) // join times are distinct by construction
 		} else {
@@ -268,6 +328,9 @@ func c10ExecCB(sc c10CB) (detail string, timing bool) {
 	if r.TimeOut {
 		return "membership history hung", false
 	}
+	if r.Exit != 0 && len(sc.Ops) > 0 && sc.Ops[len(sc.Ops)-1].Stall > 0 && strings.Contains(r.Stdout, "STALLED ") && strings.Contains(r.Stderr, "cant find self in cluster") {
+		return "", false // the dropped member fenced itself (fail-stop): it does not go on holding a number
+	}
 	if r.Exit != 0 {
 		return fmt.Sprintf("a member process died (exit %d): %s", r.Exit, firstLine(r.Stderr)), false
 	}
@@ -304,6 +367,8 @@ func TestC10_Couchbase(t *testing.T) {
 			}
 			if liveN >= 2 && rapid.IntRange(0, 2).Draw(rt, "swap") == 0 {
 				sc.Ops = append(sc.Ops, c10Op{Swap: rapid.IntRange(1, 8).Draw(rt, "swapwho")})
+			} else if liveN >= 2 && rapid.IntRange(0, 2).Draw(rt, "stall") == 0 {
+				sc.Ops = append(sc.Ops, c10Op{Stall: rapid.IntRange(1, 8).Draw(rt, "stallwho")})
 			}
 			scs = append(scs, sc)
 		}
@@ -340,7 +405,7 @@ func TestC10_Couchbase(t *testing.T) {
 		joins, nonLast := 0, false
 		liveN := 0
 		for _, op := range scs[i].Ops {
-			if op.Swap > 0 {
+			if op.Swap > 0 || op.Stall > 0 {
 				continue
 			}
 			if op.Join || liveN == 0 {
@@ -357,7 +422,12 @@ func TestC10_Couchbase(t *testing.T) {
 		if n := len(scs[i].Ops); n > 0 && scs[i].Ops[n-1].Swap > 0 {
 			labs = append(labs, "instance_swapped_within_one_round")
 		}
-		record("C10", scs[i], joins >= 3 && nonLast, labs...)
+		stall := false
+		if n := len(scs[i].Ops); n > 0 && scs[i].Ops[n-1].Stall > 0 {
+			labs = append(labs, "member_heartbeats_refused_while_its_process_lives")
+			stall = true
+		}
+		record("C10", scs[i], (joins >= 3 && nonLast) || stall, labs...)
 	}
 }
 
